@@ -77,6 +77,39 @@ theorem pie_tamper_reduction (b : Backend) (ver hdr wk blob key : Bytes) (issued
   obtain ⟨t, n, c, hb, ht, hn, htag, _⟩ := (pieUnwrap_ok_iff b ver hdr wk blob key).mp hacc
   exact ⟨_, _, t, htag.symm, hnot t n c hb ht hn⟩
 
+/-- reduction for PBKW: an accepted password-wrapped blob whose (MAC key, MAC input, tag) was not issued is
+    a MAC forgery; the MAC key is derived from the password and from the salt and parameters *inside the blob* -/
+theorem pbkw_tamper_reduction (b : Backend) (ver hdr pass blob key : Bytes) (issued : List (Bytes × Bytes × Bytes))
+    (hacc : pbkwUnwrap (pbkwOf b) ver hdr pass blob = .ok key)
+    (hnot : ∀ pre c t k, blob = pre ++ c ++ t → pre.length = (pbkwOf b).prefixLen → t.length = (pbkwOf b).tagLen →
+      (pbkwOf b).kdf pass (pre.take (pbkwOf b).saltLen) ((pre.drop (pbkwOf b).saltLen).take (pbkwOf b).paramLen) = .ok k →
+      ((pbkwOf b).ak k, ver ++ hdr ++ pre ++ c, t) ∉ issued) :
+    MacForgery (pbkwOf b).mac issued := by
+  obtain ⟨pre, c, t, k, hb, hp, ht, hk, htag, _⟩ := (pbkwUnwrap_ok_iff b ver hdr pass blob key).mp hacc
+  exact ⟨_, _, t, htag.symm, hnot pre c t k hb hp ht hk⟩
+
+/-- reduction for PKE: an accepted sealed key whose (MAC key, MAC input, tag) was not issued is a MAC forgery;
+    the MAC input contains the PASERK header, the encapsulation and the encrypted key -/
+theorem pke_tamper_reduction (b : Backend) (sk blob key : Bytes) (issued : List (Bytes × Bytes × Bytes))
+    (hacc : pkeUnseal (pkeOf b) sk blob = .ok key)
+    (hnot : ∀ tag e edk ctx, blob = (if (pkeOf b).encLast then tag ++ edk ++ e else tag ++ e ++ edk) →
+      tag.length = (pkeOf b).tagLen → e.length = (pkeOf b).encLen → edk.length = 32 →
+      (pkeOf b).decap sk e = .ok ctx →
+      ((pkeOf b).ak ctx, (pkeOf b).hdr ++ e ++ edk, tag) ∉ issued) :
+    MacForgery (pkeOf b).mac issued := by
+  obtain ⟨tag, e, edk, ctx, hb, ht, he, hd, hdec, htag, _⟩ := (pkeUnseal_ok_iff b sk blob key).mp hacc
+  exact ⟨_, _, tag, htag.symm, hnot tag e edk ctx hb ht he hd hdec⟩
+
+/-- the split of a PIE blob into tag ‖ nonce ‖ ciphertext is unique: truncating or extending the blob changes
+    the ciphertext (hence the MAC input), never the interpretation of which bytes are the tag -/
+theorem pie_split_unique (tl : Nat) (t n c t' n' c' : Bytes)
+    (e : t ++ n ++ c = t' ++ n' ++ c') (ht : t.length = tl) (ht' : t'.length = tl)
+    (hn : n.length = 32) (hn' : n'.length = 32) : t = t' ∧ n = n' ∧ c = c' := by
+  simp only [List.append_assoc] at e
+  have h1 := List.append_inj e (by rw [ht, ht'])
+  have h2 := List.append_inj h1.2 (by rw [hn, hn'])
+  exact ⟨h1.1, h2.1, h2.2⟩
+
 /-- unwrap never panics and errs only with InvalidKey / CryptoError (before key decoding) -/
 theorem pieUnwrap_total (b : Backend) (ver hdr wk blob : Bytes) :
     (∃ k, pieUnwrap (pieOf b) (pieTagLen b.version) ver hdr wk blob = .ok k) ∨
